@@ -324,7 +324,7 @@ func (vc *FuncVC) applyContract(st *State, reach Term, ins *ssa.Call, callee *ss
 			if g.S == "true" {
 				continue
 			}
-			vc.oblige("D", fmt.Sprintf("defined/arg:%s:%s", site, pnames[i]), reach, g, vc.propTags("C05", "C06"), ins.Pos(), "the previous contents of a destination are not read: operand "+pnames[i]+" of "+name)
+			vc.oblige("D", fmt.Sprintf("defined/arg:%s:%s", site, pnames[i]), reach, g, []string{"C05", "C06"}, ins.Pos(), "the previous contents of a destination are not read: operand "+pnames[i]+" of "+name)
 		}
 	}
 	if vc.dirtyKeys != nil && vc.discovery == 0 {
@@ -348,7 +348,7 @@ func (vc *FuncVC) applyContract(st *State, reach Term, ins *ssa.Call, callee *ss
 			if len(gs) == 0 {
 				continue
 			}
-			vc.oblige("D", fmt.Sprintf("unmodified/arg:%s:%s", site, pnames[i]), reach, And(gs...), vc.propTags("C05"), ins.Pos(), "an operand handed to a callee still holds its value at entry: operand "+pnames[i]+" of "+name)
+			vc.oblige("D", fmt.Sprintf("unmodified/arg:%s:%s", site, pnames[i]), reach, And(gs...), []string{"C05"}, ins.Pos(), "an operand handed to a callee still holds its value at entry: operand "+pnames[i]+" of "+name)
 		}
 	}
 	var defBefore *State
@@ -566,7 +566,7 @@ func (vc *FuncVC) execReturn(st *State, reach Term, ins *ssa.Return) {
 			if vc.fc.OutsWhen != nil {
 				src += " when " + vc.fc.OutsWhen.Src
 			}
-			vc.oblige("D", fmt.Sprintf("written/%s/ret%d", name, k), reach, goal, vc.propTags("C05", "C06"), ins.Pos(), src)
+			vc.oblige("D", fmt.Sprintf("written/%s/ret%d", name, k), reach, goal, []string{"C05", "C06"}, ins.Pos(), src)
 		}
 	}
 	if vc.fc.HasAssigns {
